@@ -31,6 +31,7 @@ import (
 	"net"
 	"net/http"
 	"net/http/httptest"
+	"runtime"
 	"sort"
 	"strings"
 	"sync"
@@ -479,8 +480,40 @@ func c16SortedTopics(m map[string]int) []int {
 	return out
 }
 
+// c16ReadLoopsParked reports whether every broker-side read loop is blocked in
+// its socket read. A read loop that is still on its way back to ReadPacket after
+// the last packet could otherwise see a c.done closed by the *next* action and
+// end the connection at a moment the schedule did not ask for.
+func c16ReadLoopsParked() bool {
+	buf := make([]byte, 1<<16)
+	for {
+		n := runtime.Stack(buf, true)
+		if n < len(buf) {
+			buf = buf[:n]
+			break
+		}
+		buf = make([]byte, 2*len(buf))
+	}
+	for _, g := range strings.Split(string(buf), "\n\n") {
+		// frames only (a "created by …handleConn" line also names the function)
+		if !strings.Contains(g, "\ngithub.com/megaease/easegress/pkg/object/mqttproxy.(*Client).readLoop(") &&
+			!strings.Contains(g, "\ngithub.com/megaease/easegress/pkg/object/mqttproxy.(*Broker).handleConn(") {
+			continue
+		}
+		hdr := g
+		if i := strings.Index(g, "\n"); i >= 0 {
+			hdr = g[:i]
+		}
+		if !strings.Contains(hdr, "[IO wait") {
+			return false
+		}
+	}
+	return true
+}
+
 func (r *c16Run) snap() c16Snap {
 	r.settlePuts()
+	c16Wait(c16ReadLoopsParked)
 	s := c16Snap{Code: -1, Reg: -1, Disc: []int{}, Seen: []int{}, SessTopics: []int{}, DBTopics: []int{}, TM: []int{}}
 	r.b.Lock()
 	cur := r.b.clients[c16Cid]
